@@ -219,6 +219,22 @@ func checkRoundTrip(c *mon.Ctx, stage string, idx int64, hr *HistRun) {
 						bad("first-packet-af-missing", fmt.Sprintf("pid %#x call %d", pid, w.k))
 						return
 					}
+					// a cleared flag wins over a value left behind (a parsed field whose flags the caller edited)
+					if !wantAF.HasPCR {
+						wantAF.PCR = nil
+					}
+					if !wantAF.HasOPCR {
+						wantAF.OPCR = nil
+					}
+					if !wantAF.HasTransportPrivateData {
+						wantAF.TransportPrivateData, wantAF.TransportPrivateDataLength = nil, 0
+					}
+					if !wantAF.HasAdaptationExtensionField {
+						wantAF.AdaptationExtensionField = nil
+					}
+					if !wantAF.HasSplicingCountdown {
+						wantAF.SpliceCountdown = 0
+					}
 					if wantAF.HasSplicingCountdown {
 						// a value wider than the field (edge of the write contract): when the call is accepted, its low 8 bits travel
 						wantAF.SpliceCountdown = int(int8(uint8(wantAF.SpliceCountdown)))
